@@ -8,6 +8,13 @@ from . import kj
 NONES = ["None", "none", "", "NONE", "nOnE", "None", "None"]
 
 
+LOWER_KEYWORDS = set("""do if for int char new delete class struct union enum bool true false this try catch throw goto case switch
+default break continue return else while long short float double void auto const static extern inline friend public private
+protected virtual template typename namespace using operator sizeof typedef register signed unsigned volatile mutable explicit
+export and or not xor is as in event object string base lock fixed checked decimal byte sbyte uint ulong ushort var params ref out
+null internal abstract sealed override readonly implicit interface delegate foreach finally""".split())
+
+
 def is_none(s):
     return s == "" or s.lower() == "none"
 
@@ -16,7 +23,8 @@ def ident(rng, prefix, used):
     syl = ["Al", "Be", "Ca", "Do", "En", "Fi", "Go", "Hu", "Ix", "Jo", "Ka", "Lu", "Mo", "Ne", "Op", "Pa", "Qu", "Ro", "Si", "Tu", "X", "AB", "B2"]
     while True:
         s = prefix + "".join(rng.choice(syl) for _ in range(rng.randint(0, 2))) + rng.choice(["", "", str(rng.randint(0, 9))])
-        if s not in used and not is_none(s) and s not in ("True", "False") and not keyword.iskeyword(s[0].lower() + s[1:]):
+        if s not in used and not is_none(s) and s not in ("True", "False", "Event", "Enum") and not keyword.iskeyword(s[0].lower() + s[1:]) \
+                and (s[0].lower() + s[1:]) not in LOWER_KEYWORDS:
             used.add(s)
             return s
 
